@@ -3,7 +3,14 @@ C20 — Key-level diff and keyed lookup respect both files' orders.
 Property theorems only (helper lemmas live in CLModel/Proofs/).
 -/
 import CLModel.Compare.AddRemove
+import CLModel.Compare.AddRemoveObj
+import CLModel.Compare.KeyedTuple
 import CLModel.Proofs.AddRemove
+import CLModel.Proofs.C03AddRemove
+import CLModel.Proofs.C20Dup
+import CLModel.Proofs.C20Obj
+import CLModel.Proofs.C20Keyed
+import CLModel.Proofs.C20Equiv
 namespace C20
 open AR
 
@@ -31,21 +38,24 @@ theorem ar_keys_perm (l r : List α) (hl : l.Nodup) (hr : r.Nodup) :
     ((addRemove l r).map (·.2)).Perm (l ++ r.filter (fun x => !l.contains x)) :=
   AR.addRemove_keys_perm l r hl hr
 
-theorem ar_keys_nodup (l r : List α) (hl : l.Nodup) (hr : r.Nodup) :
-    ((addRemove l r).map (·.2)).Nodup :=
-  AR.addRemove_keys_nodup l r hl hr
+/-- no key is yielded twice — for ALL inputs (round 4: the `Nodup` hypotheses are gone) -/
+theorem ar_keys_nodup (l r : List α) : ((addRemove l r).map (·.2)).Nodup :=
+  AR.addRemove_keys_nodup_gen l r
 
-/-- labels are decided by membership alone -/
-theorem ar_labels (l r : List α) (hl : l.Nodup) (hr : r.Nodup) :
+/-- the yielded keys are exactly the keys of either side — for ALL inputs -/
+theorem ar_keys_mem (l r : List α) (k : α) : k ∈ (addRemove l r).map (·.2) ↔ k ∈ l ∨ k ∈ r :=
+  AR.addRemove_keys_mem_gen l r k
+
+/-- labels are decided by membership alone — for ALL inputs (round 4: no `Nodup` hypotheses) -/
+theorem ar_labels (l r : List α) :
     ∀ p ∈ addRemove l r,
       p.1 = (if l.contains p.2 then (if r.contains p.2 then Label.equal else Label.delete) else Label.add) :=
-  AR.addRemove_labels l r hl hr
+  AR.addRemove_labels_gen l r
 
-/-- the first sequence's order is kept -/
-theorem ar_left_order (l r : List α) (hl : l.Nodup) (hr : r.Nodup) :
+/-- the first sequence's order is kept (round 4: `right` may contain duplicates) -/
+theorem ar_left_order (l r : List α) (hl : l.Nodup) :
     ((addRemove l r).filter (fun p => p.1 != Label.add)).map (·.2) = l := by
-  rw [AR.addRemove_eq_spec l r hl hr]
-  exact AR.spec_left_order l r
+  rw [C20P.addRemove_eq_specD, C20P.specD_left_order, C20P.dedupLast_of_nodup l hl]
 
 /-- keyed lookup returns the last entity with the key -/
 theorem keyed_last {κ : Type} [BEq κ] [LawfulBEq κ] (keys : List κ) (k : κ) :
@@ -95,5 +105,249 @@ example : addRemove ([] : List Nat) [4, 4] = [(.add, 4)] ∧
 
 example : keyedIndex [5, 6, 5, 7] 5 = some 2 ∧ keyedIndex [5, 6, 5, 7] 8 = none ∧
     keyedContains [5, 6, 5, 7] 7 = true ∧ keyedContains [5, 6, 5, 7] 8 = false := by decide
+
+/-! ## Round 4 — duplicates, the object's history, `KeyedTuple` as an object, hash independence -/
+
+open C20M
+
+/-! ### `AddRemove.__iter__` for ALL inputs (duplicates on either side) -/
+
+/-- **The diff of ANY two key sequences is the closed form `specD`**: the left keys once each in the
+    order of their LAST occurrences (`dedupLast`), labelled by membership; the right-only keys once
+    each, after the anchor they had at their FIRST occurrence, in first-occurrence order (`anchorsD`). -/
+theorem ar_eq_specD (l r : List α) : addRemove l r = specD l r :=
+  C20P.addRemove_eq_specD l r
+
+/-- the old closed form is the duplicate-free case of the new one -/
+theorem specD_nodup (l r : List α) (hl : l.Nodup) (hr : r.Nodup) : specD l r = spec l r :=
+  C20P.specD_eq_spec l r hl hr
+
+/-- with duplicates on the left: each left key once, in the order of the last occurrences -/
+theorem ar_left_order_dup (l r : List α) :
+    ((addRemove l r).filter (fun p => p.1 != Label.add)).map (·.2) = dedupLast l := by
+  rw [C20P.addRemove_eq_specD, C20P.specD_left_order]
+
+/-- the placement rule on the keys alone, for ALL inputs -/
+theorem ar_anchor_dup (l r : List α) :
+    (addRemove l r).map (·.2) =
+      ((anchorsD l r none []).filter (fun p => p.1 == none)).map (·.2) ++
+        (dedupLast l).flatMap
+          (fun k => k :: ((anchorsD l r none []).filter (fun p => p.1 == some k)).map (·.2)) := by
+  rw [C20P.addRemove_eq_specD]
+  exact C20P.specD_keys l r
+
+/-- Duplicates on the left and repeated COMMON keys on the right are harmless: as long as no
+    right-only key is repeated, the diff is the duplicate-free closed form against the left side
+    reduced to its last occurrences. -/
+theorem ar_dup_left_only (l r : List α) (hr : (r.filter (fun x => !l.contains x)).Nodup) :
+    addRemove l r = spec (dedupLast l) r := by
+  rw [C20P.addRemove_eq_specD, C20P.specD_eq_spec_dedup l r hr]
+
+/-! ### the object: iterating is pure, the state is (last `set_left`, last `set_right`) -/
+
+omit [LawfulBEq α] in
+/-- `__iter__` does not change the object -/
+theorem obj_iterate_pure (o : Obj α) : (o.step .iterate).1 = o := rfl
+
+omit [LawfulBEq α] in
+/-- the state after any history is the pair of the last arguments of the two setters -/
+theorem obj_state (ops : List (Op α)) :
+    Obj.final Obj.init ops = { left := curLeft ops, right := curRight ops } := by
+  have h1 : (Obj.final (Obj.init (α := α)) ops).left = curLeft ops := by
+    rw [C20P.final_left]
+    exact Option.or_none
+  have h2 : (Obj.final (Obj.init (α := α)) ops).right = curRight ops := by
+    rw [C20P.final_right]
+    exact Option.or_none
+  cases h : Obj.final Obj.init ops
+  rw [h] at h1 h2
+  simp only at h1 h2
+  rw [h1, h2]
+
+/-- **History independence.**  On ONE instance, for every sequence of operations, the n-th
+    operation, if it is an iteration, observes the closed form of the CURRENT sides (the arguments of
+    the last `set_left` / `set_right` before it) — whatever was iterated or set before. -/
+theorem obj_trace_spec (ops : List (Op α)) (n : Nat) (h : ops[n]? = some .iterate) :
+    (Obj.trace Obj.init ops)[n]?
+      = some (some (specOut (curLeft (ops.take n)) (curRight (ops.take n)))) := by
+  rw [C20P.trace_getElem?, h, Option.map_some, obj_state]
+  simp only [Obj.step, C20P.iterate_eq_specOut]
+
+omit [LawfulBEq α] in
+/-- the setters return nothing -/
+theorem obj_trace_setter (ops : List (Op α)) (n : Nat) (op : Op α) (h : ops[n]? = some op)
+    (hop : op ≠ .iterate) : (Obj.trace Obj.init ops)[n]? = some none := by
+  rw [C20P.trace_getElem?, h, Option.map_some]
+  cases op with
+  | setLeft l => rfl
+  | setRight r => rfl
+  | iterate => exact absurd rfl hop
+
+omit [LawfulBEq α] in
+/-- iterating twice in a row observes the same thing twice -/
+theorem obj_iterate_repeat (pre post : List (Op α)) :
+    (Obj.trace Obj.init (pre ++ .iterate :: .iterate :: post))[pre.length + 1]?
+      = (Obj.trace Obj.init (pre ++ .iterate :: .iterate :: post))[pre.length]? := by
+  rw [C20P.trace_getElem?, C20P.trace_getElem?]
+  have h1 : (pre ++ Op.iterate :: Op.iterate :: post)[pre.length + 1]? = some .iterate := by
+    rw [List.getElem?_append_right (by omega)]
+    simp
+  have h2 : (pre ++ Op.iterate :: Op.iterate :: post)[pre.length]? = some .iterate := by
+    rw [List.getElem?_append_right (by omega)]
+    simp
+  have h3 : (pre ++ Op.iterate :: Op.iterate :: post).take (pre.length + 1) = pre ++ [.iterate] := by
+    rw [List.take_append]
+    simp [List.take_of_length_le]
+  have h4 : (pre ++ Op.iterate :: Op.iterate :: post).take pre.length = pre := by
+    rw [List.take_append]
+    simp
+  rw [h1, h2, h3, h4]
+  simp only [Option.map_some, Obj.final, List.foldl_append, List.foldl_cons, List.foldl_nil, Obj.step]
+
+/-! ### hash independence
+
+Why the model cannot depend on hashing: `addRemove`, `specD` and the `KeyedTuple` model are
+polymorphic in the key type and use NOTHING of it but `==` (`[BEq α] [LawfulBEq α]`); a Python dict
+is modelled as an insertion-ordered association list, a Python set as a duplicate-free list, `sorted`
+as a stable merge sort on the integer order pairs.  There is no hash, no order on keys and no
+address in scope, so by parametricity the result can only depend on which keys are equal to which.
+`ar_hash_independent` states this consequence explicitly: replacing every key by ANY injective image
+(its hash-table slot, its `id()`, its value under another `PYTHONHASHSEED`, a str key by a tuple key)
+replaces the keys of the result and changes neither labels nor order.  The IMPLEMENTATION is tied to
+this by running it under several `PYTHONHASHSEED` values on str and tuple keys (stream `hashseed`). -/
+
+theorem ar_hash_independent {γ : Type} [BEq γ] [LawfulBEq γ] (f : α → γ) (hf : Function.Injective f)
+    (l r : List α) :
+    addRemove (l.map f) (r.map f) = (addRemove l r).map (fun p => (p.1, f p.2)) :=
+  C20P.addRemove_map f hf l r
+
+/-! ### `KeyedTuple` as an object queried by sequences -/
+
+open C20K
+variable {κ : Type} [DecidableEq κ]
+
+/-- no query changes the object -/
+theorem kt_immutable (t : KT κ) (q : Q κ) : (t.step q).1 = t := C20P.step_state t q
+
+/-- **every answer in every sequence of queries on one instance is the closed form over the entity
+    list** (no `__map`, no history) -/
+theorem kt_answers (es : List (Ent κ)) (qs : List (Q κ)) :
+    (KT.new es).run qs = qs.map (specAsk es) := by
+  rw [C20P.run_eq_map]
+  apply List.map_congr_left
+  intro q _
+  exact C20P.step_eq_spec es q
+
+/-- `keys()`, `values()` and plain iteration preserve file order, duplicates included -/
+theorem kt_order (es : List (Ent κ)) :
+    (KT.new es).keys = es.map (·.key) ∧ (KT.new es).values = es ∧
+    ((KT.new es).step .iter).2 = .tuple es ∧ (KT.new es).keys.length = es.length := by
+  simp [KT.keys, KT.values, KT.new, KT.step]
+
+/-- **`items()` is `zip(keys(), values())` positionally, duplicates included** -/
+theorem kt_items_zip (es : List (Ent κ)) :
+    (KT.new es).itemPairs = List.zip (KT.new es).keys (KT.new es).values := by
+  simp only [KT.itemPairs, KT.keys, KT.values, KT.new]
+  induction es with
+  | nil => rfl
+  | cons e es ih => simp [ih]
+
+/-- the i-th item is the i-th entity under its own key — in particular NOT the last entity with that
+    key (this is what rules out `items()` built from keyed lookup) -/
+theorem kt_items_getElem (es : List (Ent κ)) (i : Nat) :
+    (KT.new es).itemPairs[i]? = (es[i]?).map (fun e => (e.key, e)) := by
+  simp [KT.itemPairs, KT.new]
+
+/-- **keyed lookup returns the LAST entity with the key**: `kt[k]` is `e` iff `e` has key `k`, occurs
+    in the file, and no later entity has key `k` -/
+theorem kt_lookup_last (es : List (Ent κ)) (k : κ) (e : Ent κ) :
+    (KT.new es).getitem (.key k) = .ent e ↔
+      e.key = k ∧ ∃ pre post, es = pre ++ e :: post ∧ ∀ e' ∈ post, e'.key ≠ k := by
+  rw [C20P.getitem_key, ← C20P.lastWithKey_eq_some_iff]
+  cases lastWithKey es k with
+  | none => simp
+  | some e' => simp
+
+/-- a key that does not occur: `tuple.__getitem__(str)` raises `TypeError` -/
+theorem kt_lookup_missing (es : List (Ent κ)) (k : κ) (h : ∀ e ∈ es, e.key ≠ k) :
+    (KT.new es).getitem (.key k) = .err "TypeError" := by
+  rw [C20P.getitem_key, C20P.lastWithKey_none es k]
+  intro hk
+  rw [List.mem_map] at hk
+  obtain ⟨e, he, hke⟩ := hk
+  exact h e he hke
+
+/-- **membership ⇔ the key occurs** -/
+theorem kt_contains_iff (es : List (Ent κ)) (k : κ) :
+    (KT.new es).contains (.key k) = true ↔ ∃ e ∈ es, e.key = k := by
+  rw [C20P.contains_key, List.any_eq_true]
+  simp
+
+/-- membership of things that are not keys: an unhashable object (lines 34-35: the `TypeError` of
+    the dict is swallowed), an int and a slice are never members; an entity object is a member iff it
+    is an element (the `tuple.__contains__` fallback) -/
+theorem kt_contains_other (es : List (Ent κ)) :
+    (KT.new es).contains .unhashable = false ∧
+    (∀ i, (KT.new es).contains (.int i) = false) ∧
+    (∀ lo hi, (KT.new es).contains (.slice lo hi) = false) ∧
+    (∀ e, (KT.new es).contains (.ent e) = es.contains e) := by
+  simp [KT.contains, KT.mapContains, tupleContains, KT.new]
+
+/-- integer indexing and slicing bypass the map; a slice (and a sum) is a PLAIN tuple -/
+theorem kt_index_slice (es : List (Ent κ)) :
+    (∀ i : Nat, (KT.new es).getitem (.int i) = match es[i]? with
+      | some e => .ent e
+      | none => .err "IndexError") ∧
+    (∀ lo hi, (KT.new es).getitem (.slice lo hi) = .tuple (pySlice es lo hi)) ∧
+    (∀ o, ((KT.new es).step (.concat o)).2 = .tuple (es ++ o)) := by
+  refine ⟨?_, ?_, ?_⟩
+  · intro i
+    simp only [KT.getitem, KT.mapGet, tupleGetitem, C20P.tupleIndex_nat, KT.new]
+    cases es[i]? <;> rfl
+  · intro lo hi
+    simp only [KT.getitem, KT.mapGet, tupleGetitem, KT.new]
+  · intro o
+    rfl
+
+/-! ### non-vacuity and negation witnesses (round 4) -/
+
+/-- duplicates on both sides, by `decide` on the closed form -/
+example : specD [1, 2, 1, 3] [4, 2, 4, 5, 3, 3] =
+    [(.add, 4), (.add, 5), (.equal, 2), (.delete, 1), (.equal, 3)] := by decide
+
+/-- the hypothesis of `ar_dup_left_only` is needed: a REPEATED right-only key (5) re-activates the
+    anchor of its first occurrence (none), so the later right-only key 6 is placed before 0 although
+    it follows 0 in `right` -/
+example : specD [0, 1] [5, 0, 5, 6] = [(.add, 5), (.add, 6), (.equal, 0), (.delete, 1)] ∧
+    spec (dedupLast [0, 1]) [5, 0, 5, 6] = [(.add, 5), (.equal, 0), (.add, 5), (.add, 6), (.delete, 1)] ∧
+    ¬ ([5, 0, 5, 6].filter (fun x => !([0, 1] : List Nat).contains x)).Nodup := by decide
+
+/-- `ar_dup_left_only` is not vacuous: duplicates on the left, a repeated common key on the right -/
+example : (([2, 7, 2, 1].filter (fun x => !([1, 2, 1] : List Nat).contains x)).Nodup) ∧
+    spec (dedupLast [1, 2, 1]) [2, 7, 2, 1] = [(.equal, 2), (.add, 7), (.equal, 1)] ∧
+    dedupLast [1, 2, 1] = [2, 1] := by decide
+
+/-- `ar_left_order` needs `l.Nodup`: with a repeated left key the order is that of the LAST occurrences -/
+example : dedupLast [1, 2, 1] ≠ [1, 2, 1] ∧ specD [1, 2, 1] ([] : List Nat) = [(.delete, 2), (.delete, 1)] := by
+  decide
+
+/-- a history: iterate before anything is set, set, iterate twice, replace the right side, iterate -/
+example : (Obj.trace Obj.init [.iterate, .setLeft [1, 2], .iterate, .setRight [3, 2], .iterate, .iterate,
+      .setRight [], .iterate] : List (Out Nat)).length = 8 ∧
+    curLeft ([.iterate, .setLeft [1, 2], .iterate, .setRight [3, 2], .iterate] : List (Op Nat)) = some [1, 2] ∧
+    curRight ([.iterate, .setLeft [1, 2], .iterate, .setRight [3, 2], .iterate] : List (Op Nat)) = some [3, 2] ∧
+    specD [1, 2] [3, 2] = [(.add, 3), (.delete, 1), (.equal, 2)] := by
+  refine ⟨rfl, by decide, by decide, by decide⟩
+
+example : specOut (some [1, 2]) (some [3, 2]) = .ok (specD [1, 2] [3, 2]) ∧
+    specOut (some [1, 2]) (none : Option (List Nat)) = .error "TypeError" := ⟨rfl, rfl⟩
+
+/-- `items()` of a file with a duplicate key: positional, NOT the last entity for both occurrences -/
+example : (KT.new [⟨5, 0⟩, ⟨6, 1⟩, ⟨5, 2⟩] : KT Nat).itemPairs = [(5, ⟨5, 0⟩), (6, ⟨6, 1⟩), (5, ⟨5, 2⟩)] ∧
+    (KT.new [⟨5, 0⟩, ⟨6, 1⟩, ⟨5, 2⟩] : KT Nat).getitem (.key 5) = .ent ⟨5, 2⟩ ∧
+    (KT.new [⟨5, 0⟩, ⟨6, 1⟩, ⟨5, 2⟩] : KT Nat).getitem (.key 7) = .err "TypeError" ∧
+    (KT.new [⟨5, 0⟩, ⟨6, 1⟩, ⟨5, 2⟩] : KT Nat).getitem (.slice (some 1) none) = .tuple [⟨6, 1⟩, ⟨5, 2⟩] ∧
+    (KT.new [⟨5, 0⟩, ⟨6, 1⟩, ⟨5, 2⟩] : KT Nat).getitem (.int (-1)) = .ent ⟨5, 2⟩ ∧
+    (KT.new [⟨5, 0⟩, ⟨6, 1⟩, ⟨5, 2⟩] : KT Nat).contains .unhashable = false := by decide
 
 end C20
